@@ -142,7 +142,8 @@ structure Aw (α : Type) where
   x : α
   e : α
 
-/-- new `zu`; `lock` is `niter_lock`.  `enable` and `equal` are not consulted by `check_eq`. -/
+/-- new `zu`; `lock` is `niter_lock`.  `equal` is not consulted by `check_eq`; `enable` is tested once, before
+anything else (`awCheckEqAll`). -/
 def awZu (c : LimCfg) (k : Call) (lock niter : Nat) (s : Aw α) (u : α) : Bool :=
   if c.noUpper then s.zu
   else
@@ -173,7 +174,7 @@ def awUpper (c : LimCfg) (k : Call) (s : Aw α) (u : α) : α :=
 def awLower (c : LimCfg) (k : Call) (s : Aw α) (u : α) : α :=
   if !c.noLower && !c.negLower then lowerEff c k u s.lower else s.lower
 
-/-- `AntiWindup.check_eq` for one device -/
+/-- `AntiWindup.check_eq` for one device, after the `enable` guard -/
 def awCheckEq (c : LimCfg) (k : Call) (lock niter : Nat) (anyPeg : Bool) (s : Aw α) (u : α) : Aw α :=
   { lower := awLower c k s u, upper := awUpper c k s u,
     zi := awZi c k lock niter s u, zl := awZl c k lock niter s u, zu := awZu c k lock niter s u,
@@ -187,7 +188,8 @@ def awAnyPeg (c : LimCfg) (k : Call) (lock niter : Nat) (ds : List (Aw α × α)
 /-- `AntiWindup.check_eq` on all devices (each paired with its input value `u`; `u` is the state itself
 unless a separate `state=` was given) -/
 def awCheckEqAll (c : LimCfg) (k : Call) (lock niter : Nat) (ds : List (Aw α × α)) : List (Aw α) :=
-  ds.map (fun d => awCheckEq c k lock niter (awAnyPeg c k lock niter ds) d.1 d.2)
+  if !c.enable then ds.map (·.1)      -- `if not self.enable: return` (since the repair `antiwindup-ignores-enable`)
+  else ds.map (fun d => awCheckEq c k lock niter (awAnyPeg c k lock niter ds) d.1 d.2)
 
 /-- `x_set`: (address, value) of the pegged devices (`idx = np.where(self.zi == 0)`) -/
 def xSet (addr : List Nat) (ds : List (Aw α)) : List (Nat × α) :=
